@@ -157,6 +157,12 @@ rule(r"^<datetime::DateTime<offset::utc::Utc> as std::convert::From<std::time::S
 out = []
 todo = []
 seen = set()
+sites = {}
+for path in sys.argv[1:]:
+    for line in open(path):
+        m = re.match(r"^(.*?) \| (\S+) \| (.*?) :: TODO.*?@(\d+)\s*$", line)
+        if m:
+            sites.setdefault(m.group(1, 2, 3), set()).add(m.group(4))
 for path in sys.argv[1:]:
     for line in open(path):
         m = re.match(r"^(.*?) \| (\S+) \| (.*?) :: TODO", line)
@@ -168,13 +174,13 @@ for path in sys.argv[1:]:
         seen.add((fn, kind, desc))
         for rf, rk, rd, reason in R:
             if rf.match(fn) and re.fullmatch(rk, kind) and rd.search(desc):
-                out.append("%s | %s | %s :: %s" % (fn, kind, desc, reason))
+                out.append("%s | %s | %s :: %s #sites=%d" % (fn, kind, desc, reason, len(sites.get((fn, kind, desc), {0}))))
                 break
         else:
             todo.append(line.strip())
 print("# Reviewed discharge of obligations the interval domain cannot prove (DESIGN 3.5). One named site each:")
-print("# <function> | <kind> | <operation as described by the engine> :: <reason>")
-print("# A site whose operands change gets a different description and is reported again.")
+print("# <function> | <kind> | <operation as described by the engine> :: <reason> #sites=<number of source lines with this description when reviewed>")
+print("# A site whose operands change gets a different description and is reported again; so is an additional site with the same description.")
 for l in sorted(out):
     print(l)
 sys.stderr.write("%d justified, %d left\n" % (len(out), len(todo)))
